@@ -120,3 +120,81 @@ func VfC08_ParseGlobals() {
 	vfObserveStr("out", out)
 	vfAssert("C08.parse.globals.printed", len(out) > 0)
 }
+
+// VfC08_ParseParams: a function header (declaration or definition) with three
+// parameters, each written without a name, with a name, or with an explicit
+// number whose digit the solver chooses.  A header is accepted when every
+// written number is what LLVM 14 expects there (LLParser::parseArgumentList,
+// calibrated with llvm-as 14: the counter the written number is compared with
+// is advanced by every unnamed parameter except an unnamed first parameter
+// without a number) or the position among the unnamed parameters (what the
+// printer emits; the two differ only after an unnamed first parameter), and is
+// rejected when some number is neither (misplaced or repeated); an accepted
+// header numbers the unnamed parameters by position, prints without panicking
+// and the printed text is accepted again.
+//
+//vf:unwind 200
+func VfC08_ParseParams() {
+	isDef := vfChoice("definition", 2) == 1
+	hdr := ""
+	expect := 0 // LLVM's counter
+	pos := 0    // unnamed parameters so far
+	valid := true
+	var wantID [3]int
+	var unnamed [3]bool
+	for i := 0; i < 3; i++ {
+		if i > 0 {
+			hdr += ", "
+		}
+		hdr += "i32"
+		switch vfChoice("form"+string(rune('0'+i)), 3) {
+		case 0: // no name
+			unnamed[i] = true
+			wantID[i] = pos
+			pos++
+			if i > 0 {
+				expect++
+			}
+		case 1: // named
+			hdr += " %p" + string(rune('a'+i))
+		default: // explicit number
+			d := vfString("digit"+string(rune('0'+i)), 1)
+			vfAssume(vfAnd(d[0] >= '0', d[0] <= '4'))
+			hdr += " %" + d
+			if vfAnd(int(d[0]-'0') != expect, int(d[0]-'0') != pos) {
+				valid = false
+			}
+			unnamed[i] = true
+			wantID[i] = pos
+			pos++
+			expect++
+		}
+	}
+	src := "declare i32 @f(" + hdr + ")\n"
+	if isDef {
+		src = "define i32 @f(" + hdr + ") {\n\tret i32 7\n}\n"
+	}
+	vfPanicOK(false)
+	m, err := ParseString("t.ll", src)
+	vfReach("C08.params")
+	vfObserveStr("src", src)
+	vfAssert("C08.params.verdict", (err == nil) == valid)
+	if err != nil {
+		return
+	}
+	out := m.String() // must not panic
+	vfObserveStr("out", out)
+	f := m.Funcs[0]
+	for i := 0; i < 3; i++ {
+		if unnamed[i] {
+			vfAssert("C08.params.numbered-by-position", vfAnd(f.Params[i].IsUnnamed(), f.Params[i].ID() == int64(wantID[i])))
+		} else {
+			vfAssert("C08.params.name-kept", f.Params[i].Name() == "p"+string(rune('a'+i)))
+		}
+	}
+	m2, err2 := ParseString("t2.ll", out)
+	vfAssert("C08.params.output-accepted", err2 == nil)
+	if err2 == nil {
+		vfAssert("C08.params.fixpoint", m2.String() == out)
+	}
+}
